@@ -137,7 +137,7 @@ pub fn stress_shapes(ctx: &mut Ctx, reps: u64) {
                     ops.push(Op::Poll(PollAt::Now));
                 }
                 _ => {
-                    ops.push(Op::Configure { tid: 2, rto: 5, n: 0, last: 7 });
+                    ops.push(Op::Configure { tid: 2, rto: 5, n: 0, last: 7, rto_us: 0, last_us: 0 });
                     ops.push(Op::Poll(PollAt::AtWait));
                     ops.push(Op::Poll(PollAt::AtWait));
                 }
@@ -161,7 +161,7 @@ pub fn stress_shapes(ctx: &mut Ctx, reps: u64) {
                 Op::Poll(PollAt::AtWait),
                 Op::Poll(PollAt::AtWait),
                 Op::Poll(PollAt::AtWait),
-                Op::Configure { tid: 0, rto: 1 + rng.below(1000), n: rng.below(3) as u32, last: rng.below(5000) },
+                Op::Configure { tid: 0, rto: 1 + rng.below(1000), n: rng.below(3) as u32, last: rng.below(5000), rto_us: 0, last_us: 0 },
                 Op::Poll(PollAt::Now),
                 Op::Poll(PollAt::AtWait),
                 Op::Poll(PollAt::AtWait),
@@ -196,17 +196,17 @@ pub fn gen_extended_schedule(rng: &mut crate::prng::Rng) -> History {
     let n1 = rng.below(3) as u32;
     let n2 = n1 + 1 + rng.below(4) as u32;
     let rto = 1 + rng.below(400);
-    let mut ops = vec![req(3, (rng.below(NCORE as u64)) as u8, *rng.pick(&[Sealing::None, Sealing::Sha1]), 10), Op::Configure { tid: 3, rto, n: n1, last: 5_000 + rng.below(5_000) }];
+    let mut ops = vec![req(3, (rng.below(NCORE as u64)) as u8, *rng.pick(&[Sealing::None, Sealing::Sha1]), 10), Op::Configure { tid: 3, rto, n: n1, last: 5_000 + rng.below(5_000), rto_us: 0, last_us: 0 }];
     for _ in 0..n1 + 1 {
         ops.push(Op::Poll(PollAt::AtWait));
     }
     // now waiting for the final timeout: extend
     ops.push(Op::Poll(PollAt::Half));
-    ops.push(Op::Configure { tid: 3, rto: 1 + rng.below(400), n: n2, last: rng.below(3_000) });
+    ops.push(Op::Configure { tid: 3, rto: 1 + rng.below(400), n: n2, last: rng.below(3_000), rto_us: 0, last_us: 0 });
     for _ in 0..(n2 - n1) as usize + 2 {
         ops.push(Op::Poll(PollAt::AtWait));
     }
-    ops.push(Op::Configure { tid: 3, rto, n: n2 + 2, last: 100 });
+    ops.push(Op::Configure { tid: 3, rto, n: n2 + 2, last: 100, rto_us: 0, last_us: 0 });
     for _ in 0..5 {
         ops.push(Op::Poll(PollAt::AtWait));
     }
@@ -220,7 +220,7 @@ pub fn gen_staggered_service(rng: &mut crate::prng::Rng) -> History {
     let mut ops: Vec<Op> = (0..n).map(|i| req(i, i % NCORE as u8, Sealing::None, 20 + i as u16)).collect();
     if rng.chance(1, 2) {
         for i in 0..n {
-            ops.push(Op::Configure { tid: i, rto: 300, n: 3, last: 900 });
+            ops.push(Op::Configure { tid: i, rto: 300, n: 3, last: 900, rto_us: 0, last_us: 0 });
         }
     }
     ops.push(Op::Poll(PollAt::AtWait));
@@ -349,7 +349,9 @@ pub fn schedule_sweep(ctx: &mut Ctx, n: u64) {
                     if !ctx.mine(gi) {
                         continue;
                     }
-                    let mut ops = vec![req(0, 0, Sealing::None, 1), Op::Configure { tid: 0, rto, n: nre, last }];
+                    // every third grid point carries sub-millisecond parts (interval = rto * 2^i truncated)
+                    let (rto_us, last_us) = if gi % 3 == 0 { ([1u16, 500, 999][(gi / 3 % 3) as usize], [0u16, 999][(gi / 9 % 2) as usize]) } else { (0, 0) };
+                    let mut ops = vec![req(0, 0, Sealing::None, 1), Op::Configure { tid: 0, rto, n: nre, last, rto_us, last_us }];
                     for _ in 0..12 {
                         ops.push(Op::Poll(PollAt::AtWait));
                     }
@@ -393,7 +395,7 @@ pub fn run_c06(ctx: &mut Ctx) {
     random_histories(ctx, ctx.n(12_000, 120_000), "timing", 100, if quick { 500 } else { 1500 }, 4);
     // timing-relevant slice of the small-scope alphabet, one level deeper
     let a = small_alphabet();
-    let timing: Vec<Op> = vec![a[0].clone(), a[1].clone(), a[3].clone(), a[4].clone(), a[5].clone(), a[12].clone(), a[13].clone(), Op::Poll(PollAt::Half), Op::Configure { tid: 1, rto: 60_000, n: 8, last: 0 }];
+    let timing: Vec<Op> = vec![a[0].clone(), a[1].clone(), a[3].clone(), a[4].clone(), a[5].clone(), a[12].clone(), a[13].clone(), Op::Poll(PollAt::Half), Op::Configure { tid: 1, rto: 60_000, n: 8, last: 0, rto_us: 0, last_us: 0 }];
     small_scope(ctx, if quick { 5 } else { 6 }, &timing);
     stress_shapes(ctx, ctx.n(320, 3_200));
     ctx.require("requests-started", 50_000);
